@@ -219,7 +219,13 @@ fn gen_scenario(c: &mut Ctx<'_>, id: &str, max_steps: usize, serial: bool, retry
     let spice = if c.spicy_names && !outline { *c.r.pick(SPICE) } else { "" };
     // same-named scenarios (as the rows of an outline without a placeholder in its name are)
     let display = (c.dup_scenarios && !outline).then(|| "Sdup scenario".to_owned());
-    ScenarioSpec { name: format!("{id}{spice}"), tags, steps, examples, display }
+    // an outline may carry tags on its `Examples:` block, after a block whose table is still missing
+    let (examples_tags, examples_empty_first) = if outline && c.r.chance(1, 3) {
+        (vec![(*c.r.pick(&["serial", "allow.skipped"])).to_owned()], c.r.chance(1, 2))
+    } else {
+        (Vec::new(), false)
+    };
+    ScenarioSpec { name: format!("{id}{spice}"), tags, steps, examples, display, examples_tags, examples_empty_first }
 }
 
 fn gen_retry_tag(r: &mut Rng, delay: bool, max_retries: usize) -> String {
